@@ -11,6 +11,8 @@
 package simnet
 
 import (
+	"sync/atomic"
+	"runtime"
 	"context"
 	"errors"
 	"fmt"
@@ -84,6 +86,17 @@ type Conn struct {
 	rdl, wdl   time.Time
 	ID         int
 	Server     bool
+	sname      string // server side: canonical name for the goroutine that serves this connection
+	snamed     atomic.Bool
+}
+
+// nameServing names the first goroutine that touches the server side of a
+// connection after the dialling goroutine (see sim.NameGoroutine).
+func (c *Conn) nameServing() {
+	if c.sname != "" && !c.snamed.Load() {
+		c.snamed.Store(true)
+		sim.NameGoroutine(c.sname)
+	}
 }
 
 // Net is a simulated network.
@@ -156,6 +169,13 @@ func (l *Listener) Addr() net.Addr { return l.addr }
 
 // Accept waits for the next connection.
 func (l *Listener) Accept() (net.Conn, error) {
+	// Let the goroutine the caller started for the previous connection run to its
+	// first gate before the next connection is handed out: sibling goroutines get
+	// their canonical names (parent>creator#ordinal) in the order of their first
+	// gate, and that order must be the order of creation to be reproducible.
+	if sim.Active() != nil {
+		runtime.Gosched()
+	}
 	for {
 		l.mu.Lock()
 		if l.closed {
@@ -293,6 +313,9 @@ func (n *Net) DialFrom(ctx context.Context, localIP, addr string) (net.Conn, err
 	}
 	cc := &Conn{net: n, in: s2c, out: c2s, local: la, rem: ra, ID: id}
 	sc := &Conn{net: n, in: c2s, out: s2c, local: ra, rem: la, ID: id, Server: true}
+	if dn := sim.CurrentName(); dn != "" {
+		sc.sname = "serve<" + dn + ">"
+	}
 	cc.peer, sc.peer = sc, cc
 	n.mu.Lock()
 	n.conns = append(n.conns, cc, sc)
@@ -437,6 +460,7 @@ func waitOn(w chan struct{}, dl time.Time) {
 
 // Read implements net.Conn.
 func (c *Conn) Read(b []byte) (int, error) {
+	c.nameServing()
 	h := c.in
 	for {
 		if c.isClosed() {
@@ -479,6 +503,7 @@ func (c *Conn) Read(b []byte) (int, error) {
 // Write implements net.Conn. It blocks while the peer's receive window
 // (capacity minus in-flight and unread bytes) is full.
 func (c *Conn) Write(b []byte) (int, error) {
+	c.nameServing()
 	h := c.out
 	total := 0
 	for len(b) > 0 {
